@@ -698,8 +698,21 @@ def rule_varint(R):
     _r(R)
 
 
+def rule_arena(R):
+    """retained packets are sent from the transmit arena: the stream consists of whole packets only if those bytes are
+    the bytes that were encoded (the clauses of C17: views start behind retained bytes, who writes the arena, compaction,
+    offset/len wiring, `used`)"""
+    from . import c17
+    c17.rule_base(R)
+    c17.rule_writers(R)
+    c17.rule_compact(R)
+    c17.rule_wire(R)
+    c17.rule_used(R)
+
+
 def run(R):
     R.rule("varint", rule_varint)
+    R.rule("arena", rule_arena)
     R.rule("arena-order", rule_arena_order)
     R.rule("drain", rule_drain)
     R.rule("flags", rule_flags)
